@@ -62,6 +62,7 @@ def run(ctx):
     c06.end_rule(dep(ctx, "C07", "C06"))
     from . import c15
     c15.cli_arm_dep(ctx, "C07", ("Ctr",))
+    rule_threads_default(ctx, "C07.L", "counter::CountComputer")
 
 
 def worker_closure(fv):
